@@ -23,3 +23,9 @@ Theorem operator_table_covers :
           ["$addsub_fun"; "$addsubassign_fun"; "$muldiv_fun"; "rem"; "rem_assign"; "eq"; "partial_cmp"; "lt"; "le"; "gt"; "ge"; "hypot"; "mul_add"; "from"; "add"]%string
   && (30 <=? List.length src_ops)%nat = true.
 Proof. vm_compute. reflexivity. Qed.
+
+(* the dimension algebra written in the result types of the source is the one Model.Typing implements *)
+Theorem source_dimension_rules_are_the_model_rules :
+  dim_rules_ok src_dim_rules = true
+  /\ muldiv_aliases src_impl_ops_invocations = [("Mul", "Sum"); ("Div", "Diff")]%string.
+Proof. split; vm_compute; reflexivity. Qed.
